@@ -27,7 +27,7 @@ THOROUGH_SCALE = 5        # random budgets of the thorough tier are multiplied b
 REQUIRE = {'writes_' + w: 30 for w in W.WRITERS}
 REQUIRE.update({'captions_with_empty_lines': 50, 'captions_with_arrow': 10, 'captions_with_amp_or_lt': 100,
                 'captions_with_style_between_breaks': 5, 'lines_compared': 2000,
-                'sets_with_a_repeated_text': 100})
+                'sets_with_a_repeated_text': 100, 'webvtt_captions_in_two_regions': 50})
 
 
 def gen_caption_nodes(rng, tag, writer):
@@ -73,6 +73,20 @@ def gen_case(rng, tag, writer):
             dur = rng.choice([1000000, 2000000, 3500000])
             nodes, f = gen_caption_nodes(rng, f'{tag}.{li}.{ci}', writer)
             feats |= f
+            nlines = 1 + sum(1 for n in nodes if n[0] == 'b')
+            if writer == 'WebVTTWriter' and nlines >= 2 and 'style' not in f and rng.random() < 0.3:
+                # the lines lie in two regions: WebVTT writes one cue per region, each with its own lines
+                from vf.gen import geom
+                la, lb = geom.pct_layout(rng), geom.pct_layout(rng)
+                if la != lb and la.get('origin') and lb.get('origin'):
+                    cutline = rng.randrange(1, nlines)
+                    ln = 0
+                    for n in nodes:
+                        if n[0] == 'b':
+                            ln += 1
+                        elif n[0] == 't':
+                            n.append(la if ln < cutline else lb)
+                    feats.add('two-regions')
             caps.append({'start': t, 'end': t + dur, 'nodes': nodes, 'style': None, 'layout': None})
             if writer in W.MERGING and rng.random() < 0.15:
                 pass          # next caption shares the timespan
@@ -133,6 +147,8 @@ def check(case, ctx):
         ctx.count('captions_with_style_between_breaks')
     if 'repeated-text' in case['features']:
         ctx.count('sets_with_a_repeated_text')
+    if 'two-regions' in case['features']:
+        ctx.count('webvtt_captions_in_two_regions')
     for l in before['langs']:
         for c in l['captions']:
             raw = dump.text_lines(c['nodes'])
